@@ -49,6 +49,8 @@ func (c *concComp) Exec(t []string) (extra []string, out string, eff bool) {
 		return c.freshCredit(atoi("rounds"), int64(atoi("seed")))
 	case "linkrace":
 		return c.linkRace(atoi("rounds"), int64(atoi("seed")))
+	case "sigstorm":
+		return c.sigStorm(atoi("workers"), atoi("rounds"))
 	}
 	return nil, "bad-op", false
 }
@@ -401,7 +403,9 @@ func (c *concComp) gen(r *rand.Rand, idx int, emit func(string), sameNode bool) 
 			return
 		}
 		fallthrough
-	default: // 3, 9
+	case 9:
+		emit(fmt.Sprintf("sigstorm workers=%d rounds=%d", 6+r.Intn(7), 100+r.Intn(100)))
+	default: // 3
 		emit(fmt.Sprintf("withdraw workers=%d credit=%d fee=%d failfirst=%d stagger=%d seed=%d rounds=%d", 3+r.Intn(10), 1000+r.Intn(9000), r.Intn(200), r.Intn(3), []int{0, 4000, 9000, 15000}[r.Intn(4)], r.Intn(1000), 12+r.Intn(12)))
 	}
 }
